@@ -1402,6 +1402,43 @@ theorem runHistNR_eq_runHist (F : FloatOps) (D : DiffOps) (st : NState) (rs : Li
     simp only [runHistNR, List.map_cons, runHist]
     rw [ih, reconcileNR_eq_step]
 
+/-! ### histories of threaded reconciles: the statement-level corollaries -/
+
+/-- the `Round` a threaded round amounts to. -/
+def RoundNR.once (F : FloatOps) (r : RoundNR) : Round :=
+  { thr := r.thr, interval := r.interval, now := r.now, computed := (prepareAll F r.nr).1 }
+
+/-- after EVERY round of ANY history of threaded reconciles (each preparing 1–3 times): the node carries the amounts of
+    ONE prepare of that round's NodeResource, or amounts within the round's threshold of them written at most
+    `interval` seconds before. -/
+theorem histNR_close_after_every_round (F : FloatOps) (D : DiffOps) (hD : DiffOK D) (st : NState) (pre : List RoundNR) (r : RoundNR) :
+    let st' := runHistNR F D st (pre ++ [r])
+    st'.r.pub = (prepareAll F r.nr).1 ∨
+      (ClosePub r.thr st'.r.pub (prepareAll F r.nr).1 ∧ ∃ t, st'.r.lastSync = some t ∧ r.now - t ≤ r.interval) := by
+  have h := hist_close_after_every_round D hD st.r (pre.map (RoundNR.once F)) (r.once F)
+  simp only [runHistNR_eq_runHist, List.map_append, List.map_cons, List.map_nil]
+  exact h
+
+/-- the node never carries an amount that is not the ONCE-prepared amount of some round (no r², no accumulation across
+    the prepares of a round or across rounds). -/
+theorem histNR_pub_from_rounds (F : FloatOps) (D : DiffOps) (st : NState) (rs : List RoundNR) :
+    (runHistNR F D st rs).r.pub = st.r.pub ∨ ∃ r ∈ rs, (runHistNR F D st rs).r.pub = (prepareAll F r.nr).1 := by
+  rw [runHistNR_eq_runHist]
+  rcases hist_pub_from_rounds D st.r (rs.map (fun r => ({ thr := r.thr, interval := r.interval, now := r.now, computed := (prepareAll F r.nr).1 } : Round))) with h | ⟨r', hr', h⟩
+  · left; exact h
+  · right
+    obtain ⟨r, hr, rfl⟩ := List.mem_map.mp hr'
+    exact ⟨r, hr, h⟩
+
+/-- a round whose NodeResource is all Reset / nil (stale or missing NodeMetric, disabled config) withdraws everything,
+    whatever the ratio annotation says and however often it prepares. -/
+theorem histNR_degrade (F : FloatOps) (D : DiffOps) (st : NState) (pre : List RoundNR) (r : RoundNR)
+    (h : (prepareAll F r.nr).1 = Pub.empty) :
+    (runHistNR F D st (pre ++ [r])).r.pub = Pub.empty := by
+  have := hist_degrade D st.r (pre.map (RoundNR.once F)) (r.once F) h
+  simp only [runHistNR_eq_runHist, List.map_append, List.map_cons, List.map_nil]
+  exact this
+
 /-! ### the NodeResource of a round and what one prepare makes of it -/
 
 theorem prepareStored_storeInt (F : FloatOps) (amp : Option Int) (q : Option Int) (reset : Bool) :
@@ -1648,6 +1685,49 @@ theorem prepareOrigin_eq (F : FloatOps) (nr : NRes) :
     prepareOrigin F nr = some (max ((prepareAll F nr).1.bc.getD (-1)) 0, max ((prepareAll F nr).1.bm.getD (-1)) 0) := by
   simp only [prepareOrigin, prepareAll, batchPrepareNR, batchFinish]
   split <;> simp
+
+/-! ### NUMA-zone amounts on the NodeResourceTopology object are withdrawn with the node-level amounts -/
+
+/-- a round whose batch items are Reset (stale / missing NodeMetric, disabled config) leaves every zone of the
+    NodeResourceTopology object with batch-cpu = batch-memory = 0, whatever was published before and whatever the
+    merge rule of fresh rounds is. -/
+theorem zones_withdrawn_on_reset (upd : List (Int × Int) → List (Int × Int) → List (Int × Int)) (old : List (Int × Int)) :
+    ∀ z ∈ preUpdateZones upd true none old, z = (0, 0) := by
+  intro z hz
+  simp only [preUpdateZones, if_true, List.mem_map] at hz
+  obtain ⟨_, _, h⟩ := hz
+  exact h.symm
+
+/-- no calculated zone amounts and no Reset (zone resources not reported): the stored zone amounts are left alone. -/
+theorem zones_kept_without_calc (upd : List (Int × Int) → List (Int × Int) → List (Int × Int)) (old : List (Int × Int)) :
+    preUpdateZones upd false none old = old := rfl
+
+/-- the NodeResource of a stale / missing-metric / disabled round has the batch items Reset — the condition under which
+    `preUpdateZones` zeroes the zones (`allocNil`: the mid plugin's error path does not matter here). -/
+theorem nresOf_stale_reset (F : FloatOps) (k : PrioConsts) (df : MidDefaults) (en : Bool) (s : Strategy) (ms : MidStrategy)
+    (n : NodeIn) (allocNil : Bool) (hs : List HostApp) (pods : List PodIn) (mets : List Metric) (mm : MidMetric)
+    (hasUpd : Bool) (now upd : Int) (ratio : RatioAnno) (h : en = false ∨ hasUpd = false ∨ now > upd + s.degradeMin * 60) :
+    (nresOf F k df en s ms n allocNil hs pods mets mm hasUpd now upd ratio).resetB = true := by
+  cases en with
+  | false => simp [nresOf]
+  | true =>
+    have h' : hasUpd = false ∨ now > upd + s.degradeMin * 60 := by
+      rcases h with h | h
+      · cases h
+      · exact h
+    have h2 := degrade_resets F k s n hs pods mets [] hasUpd now upd h'
+    simp only [nresOf, Bool.not_true, Bool.false_eq_true, if_false, h2, batchOutQuantities]
+
+/-- stale / missing metric or disabled config ⇒ after that round every zone carries zero batch amounts. -/
+theorem zones_withdrawn_when_stale (F : FloatOps) (k : PrioConsts) (df : MidDefaults) (en : Bool) (s : Strategy) (ms : MidStrategy)
+    (n : NodeIn) (allocNil : Bool) (hs : List HostApp) (pods : List PodIn) (mets : List Metric) (mm : MidMetric)
+    (hasUpd : Bool) (now upd : Int) (ratio : RatioAnno) (h : en = false ∨ hasUpd = false ∨ now > upd + s.degradeMin * 60)
+    (updf : List (Int × Int) → List (Int × Int) → List (Int × Int)) (old : List (Int × Int)) :
+    ∀ z ∈ preUpdateZones updf (nresOf F k df en s ms n allocNil hs pods mets mm hasUpd now upd ratio).resetB none old, z = (0, 0) := by
+  rw [nresOf_stale_reset F k df en s ms n allocNil hs pods mets mm hasUpd now upd ratio h]
+  exact zones_withdrawn_on_reset updf old
+
+example : preUpdateZones (fun _ n => n) true none [(205, 4), (190, 3)] = [(0, 0), (0, 0)] := by decide
 
 /-! ### why the threading matters: the seeded in-place variant is NOT idempotent -/
 
